@@ -249,6 +249,8 @@ class CallMixin(object):
                 raise EngineError('loop exit escaped function')
         result = None
         cur = State(guard=z3.BoolVal(False))
+        if self.depth == 0:
+            self.top_returns = [(x.state.copy(), x.value) for x in rets]
         if any(isinstance(x.value, V) for x in rets) and any(isinstance(x.value, (GList, PyTuple)) for x in rets):
             for x in rets:
                 if isinstance(x.value, (GList, PyTuple)):
@@ -447,6 +449,9 @@ class CallMixin(object):
             if not args:
                 return GList([])
             v = args[0]
+            if isinstance(v, PyObj) and isinstance(v.o, tuple) and len(v.o) == 2 and v.o[0] is map and len(v.o[1]) == 2 \
+                    and isinstance(v.o[1][1], V) and v.o[1][1].hint is not None and v.o[1][1].hint.kind == 'list':
+                return self.list_of_map(st, v.o[1][0], v.o[1][1], line)
             if isinstance(v, PyTuple):
                 return GList([GEntry(z3.BoolVal(True), x) for x in v.items]) if o is list else v
             if isinstance(v, GList):
@@ -684,6 +689,8 @@ class CallMixin(object):
         if h.kind == 'set':
             return self.set_method(st, selfv, name, args, line)
         if h.kind in ('list', 'tuple'):
+            if name == 'sort':
+                return self.list_sort(st, selfv, kwargs, line)
             return self.list_method(st, selfv, name, args, line)
         raise EngineError('method %s on %r' % (name, h))
 
@@ -800,11 +807,18 @@ class CallMixin(object):
             self.raise_exit(st, AttributeError, Val.is_N(l.t), line)
         if name == 'append':
             hv = self.as_v(st, args[0])
+            es = l.hint.elem
+            if es is not None and not isinstance(es, (list, tuple)) and (hv.hint is None or repr(hv.hint) != repr(es)):
+                # declared element types are assumed at loads, so they are obligations at stores
+                self.oblige(st, 'elemtype.append@%d' % line, self.spec_formula(st, es, hv.t),
+                            'the appended value has the declared element type %r of the list' % (es,))
             n = self.list_len(st, r)
             el = self.harr(st, '$ELEM')
             st.heap['$ELEM'] = z3.Store(el, r, z3.Store(z3.Select(el, r), self.list_off(st, r) + n, hv.t))
             st.heap['$LEN'] = z3.Store(self.harr(st, '$LEN'), r, n + 1)
             return self.lift(None)
+        if name == 'sort':
+            return self.list_sort(st, l, kwargs if isinstance(kwargs, dict) else {}, line)
         if name == 'pop':
             n = self.list_len(st, r)
             self.assume(st, n >= 0)
@@ -825,21 +839,160 @@ class CallMixin(object):
             return V(t, l.hint.elem)
         raise EngineError('list method %s' % name)
 
+    def key_le(self, st, a, b):
+        """python  a <= b  for sort keys: ints, strings, or tuples of those (lexicographic)"""
+        def unpack(x):
+            h = x.hint if isinstance(x, V) else None
+            if h is not None and h.kind == 'tuple' and not h.opt and isinstance(h.elem, (list, tuple)):
+                r = Val.r(x.t)
+                items = []
+                for i, es in enumerate(h.elem):
+                    t = self.list_elem(st, r, z3.IntVal(i))
+                    if es is not None:
+                        self.assume(st, es.assumption(t))
+                    items.append(V(t, es))
+                return PyTuple(items)
+            return x
+        a, b = unpack(a), unpack(b)
+        if isinstance(a, PyTuple) and isinstance(b, PyTuple) and len(a.items) == len(b.items):
+            if not a.items:
+                return z3.BoolVal(True)
+            lt = self.compare(st, pyast.Lt(), a.items[0], b.items[0])
+            eq = self.py_eq(st, a.items[0], b.items[0])
+            return Or(lt, And(eq, self.key_le(st, PyTuple(a.items[1:]), PyTuple(b.items[1:]))))
+        return self.compare(st, pyast.LtE(), a, b)
+
+    def witness_indices(self, n):
+        """index terms at which the (otherwise quantified) facts about sorted / mapped lists are instantiated:
+        the ends of the list and the universally quantified ghost indices of the contract under verification"""
+        return [z3.IntVal(0), n - 1] + list(getattr(self, 'ghost_ints', []))
+
+    def list_sort(self, st, l, kwargs, line):
+        """list.sort(key=f): the list becomes a permutation of itself whose last element has a maximal key
+        (assumed contract of the built-in sort; stability / full sortedness are not used).  The permutation and its
+        inverse are Skolem functions; their defining facts are instantiated at the witness indices only (sound:
+        every instance is a consequence of the sort contract; incomplete for other indices)."""
+        r = Val.r(l.t)
+        n = self.list_len(st, r)
+        keyf = kwargs.get('key')
+        old_inner = z3.Select(self.harr(st, '$ELEM'), r)
+        old_off = self.list_off(st, r)
+        new_inner = fresh('sorted_elems', z3.ArraySort(IntS, Val))
+        st.heap['$ELEM'] = z3.Store(self.harr(st, '$ELEM'), r, new_inner)
+        st.heap['$OFF'] = z3.Store(self.harr(st, '$OFF'), r, z3.IntVal(0))
+        self.trust('list.sort: permutation of the elements whose last element has a maximal key (instantiated at '
+                   'the list ends and the ghost indices)')
+        p = self.get_uf('sort_perm_%d' % len(self.assumes), IntS, IntS)
+        q = self.get_uf('sort_inv_%d' % len(self.assumes), IntS, IntS)
+        W = self.witness_indices(n)
+        es = l.hint.elem
+        for w in W:
+            rng = And(0 <= w, w < n)
+            self.assume(st, z3.Implies(rng, And(0 <= p(w), p(w) < n, z3.Select(new_inner, w) == z3.Select(old_inner, old_off + p(w)),
+                                                0 <= q(w), q(w) < n, z3.Select(old_inner, old_off + w) == z3.Select(new_inner, q(w)))))
+        for gt, formulas in list(getattr(self, 'generalized', [])):
+            # invariants generalised over a ghost index (verify.assume_inv) hold at the permuted positions too
+            for w in W:
+                for f in formulas:
+                    self.assumes.append(z3.Implies(And(st.guard, 0 <= w, w < n), z3.substitute(f, (gt, mkI(p(w))))))
+        s1 = State(dict(st.vars), dict(st.heap), And(st.guard, n > 0))
+        elast = V(z3.Select(new_inner, n - 1), es)
+        if es is not None:
+            self.assume(s1, self.spec_formula(s1, es, elast.t))
+        kb = self.call_value(s1, keyf, [elast], {}, line) if keyf is not None else elast
+        for a in [w for w in W if w is not W[1]] + [q(w) for w in W if w is not W[1]]:
+            rng = And(0 <= a, a < n)
+            s2 = State(dict(st.vars), dict(st.heap), And(st.guard, rng))
+            ea = V(z3.Select(new_inner, a), es)
+            if es is not None:
+                self.assume(s2, self.spec_formula(s2, es, ea.t))
+            ka = self.call_value(s2, keyf, [ea], {}, line) if keyf is not None else ea
+            self.assume(s2, self.key_le(s2, ka, kb))
+        return self.lift(None)
+
+    def list_of_map(self, st, f, seq, line):
+        """list(map(f, L)) for a symbolic list L: a fresh list of the same length with element k equal to f(L[k])
+        (f must build a tuple of scalars / references); the element-wise facts are instantiated at the witness indices"""
+        r = Val.r(seq.t)
+        n = self.list_len(st, r)
+        nr = self.new_ref(st, list)
+        st.heap['$LEN'] = z3.Store(self.harr(st, '$LEN'), nr, n)
+        st.heap['$OFF'] = z3.Store(self.harr(st, '$OFF'), nr, z3.IntVal(0))
+        es = seq.hint.elem
+        self.alloc_k += 1
+        base = self.alloc0 + self.alloc_k
+        self.alloc_k += 10 ** 6           # a block of fresh references for the tuples (base itself is a scratch slot)
+        inner = fresh('mapped_elems', z3.ArraySort(IntS, Val))
+        st.heap['$ELEM'] = z3.Store(self.harr(st, '$ELEM'), nr, inner)
+        self.assume(st, n < 10 ** 6)
+        specs = None
+        for w in self.witness_indices(n):
+            rng = And(0 <= w, w < n)
+            s2 = State(dict(st.vars), dict(st.heap), And(st.guard, rng))
+            item = V(self.list_elem(s2, r, w), es)
+            if es is not None:
+                self.assume(s2, self.spec_formula(s2, es, item.t))
+            val = self.call_value(s2, f, [item], {}, line)
+            if not isinstance(val, PyTuple) or not all(isinstance(x, V) for x in val.items):
+                raise EngineError('list(map(f, L)): f must return a tuple of plain values')
+            tid = z3.If(rng, base + 1 + w, base)
+            te_inner = z3.Select(self.harr(st, '$ELEM'), tid)
+            for i, x in enumerate(val.items):
+                te_inner = z3.Store(te_inner, i, z3.If(rng, x.t, z3.Select(te_inner, i)))
+            st.heap['$ELEM'] = z3.Store(self.harr(st, '$ELEM'), tid, te_inner)
+            st.heap['$LEN'] = z3.Store(self.harr(st, '$LEN'), tid, len(val.items))
+            st.heap['$OFF'] = z3.Store(self.harr(st, '$OFF'), tid, z3.IntVal(0))
+            self.assume(st, z3.Implies(rng, And(z3.Select(inner, w) == mkR(base + 1 + w), cls_of(base + 1 + w) == UNIVERSE.cid(tuple))))
+            specs = [x.hint for x in val.items]
+        self.trust('list(map(f, L)): element-wise image as fresh tuples (instantiated at the list ends and the ghost indices)')
+        return V(mkR(nr), TypeSpec('list', (), False, TypeSpec('tuple', (), False, specs)))
+
     def str_method(self, st, s, name, args, kwargs, line):
         if s.hint is not None and s.hint.opt:
             self.raise_exit(st, AttributeError, Val.is_N(s.t), line)
         x = Val.s(s.t)
         B = parse_spec('bool')
         S = parse_spec('str')
+        # constant folding: a method of a concrete string with concrete arguments is evaluated by CPython itself
+        cs0 = self.const_str(s)
+        if cs0 is not None and not kwargs and name not in ('join', 'format', 'split', 'rsplit', 'splitlines'):
+            cargs = []
+            for a in args:
+                ca = self.const_str(a) if isinstance(a, V) else None
+                ci = self.const_int(a) if isinstance(a, V) else None
+                if ca is not None:
+                    cargs.append(ca)
+                elif ci is not None:
+                    cargs.append(ci)
+                else:
+                    cargs = None
+                    break
+            if cargs is not None and hasattr(cs0, name):
+                try:
+                    resv = getattr(cs0, name)(*cargs)
+                    if isinstance(resv, (str, bool, int)):
+                        return self.lift(resv)
+                except Exception:
+                    pass
         if name == 'startswith':
             a = args[0]
             if isinstance(a, PyTuple):
                 return V(mkB(Or(*[z3.PrefixOf(Val.s(i.t), x) for i in a.items])), B)
+            if getattr(self, 'string_lemmas', False):
+                # valid instances of the theory of strings, stated to spare the solver the search for them
+                pfx = Val.s(a.t)
+                lp = z3.Length(pfx)
+                self.assume(st, z3.Implies(z3.PrefixOf(pfx, x), And(z3.SubString(x, 0, lp) == pfx, lp <= z3.Length(x),
+                                                                    z3.Implies(lp >= 1, z3.SubString(x, lp - 1, 1) == z3.SubString(pfx, lp - 1, 1)))))
             return V(mkB(z3.PrefixOf(Val.s(a.t), x)), B)
         if name == 'endswith':
             a = args[0]
             if isinstance(a, PyTuple):
                 return V(mkB(Or(*[z3.SuffixOf(Val.s(i.t), x) for i in a.items])), B)
+            if getattr(self, 'string_lemmas', False):
+                sfx = Val.s(a.t)
+                self.assume(st, z3.Implies(And(z3.SuffixOf(sfx, x), z3.Length(sfx) == 1),
+                                           And(z3.Length(x) >= 1, z3.SubString(x, z3.Length(x) - 1, 1) == sfx)))
             return V(mkB(z3.SuffixOf(Val.s(a.t), x)), B)
         if name == 'find':
             return V(mkI(z3.IndexOf(x, Val.s(args[0].t), 0)), parse_spec('int'))
